@@ -1,6 +1,6 @@
 (* Property C06 - proof of stake: weighted lottery, owner-only signing, locked funds, exact payout.
-   Statements only; proofs in Proofs/Staking.v. *)
-From Virel Require Import Lib.Config Lib.U64 Lib.AMap Model.Ledger Model.Node Proofs.Staking Proofs.NodeBasics.
+   Statements only; proofs in Proofs/Staking.v and Proofs/Lottery.v (the counting statements). *)
+From Virel Require Import Lib.Config Lib.U64 Lib.AMap Model.Ledger Model.Node Proofs.Staking Proofs.NodeBasics Proofs.StakedSum Proofs.Lottery.
 Open Scope N_scope.
 
 (* THE LOTTERY.  When the staked total S is the sum over all pools (invariant of C01) and positive, then for EVERY
@@ -27,6 +27,83 @@ Theorem C06_lottery_interval_complete : forall pre k d post idx seen,
   walk_delegates (pre ++ (k, d) :: post) idx seen = Ok (Some d).
 Proof. exact walk_hits. Qed.
 Print Assumptions C06_lottery_interval_complete.
+
+(* THE LOTTERY, COUNTED.  SInv (Proofs/StakedSum.v, the invariant of C01): the table is in database order, every record
+   is filed under its identifier, the staked total S is the exact sum over the pools and fits 64 bits.
+   [count_below f n] is the number of i < n with f i = true; [lottery_pos l hv] is the position in the table at which
+   the walk for the coin index  hv mod S  stops; [ind b] is 1 when b holds. *)
+Theorem C06_count_is_cardinality : forall f n,
+  count_below f n = N.of_nat (length (filter (fun k => f (N.of_nat k)) (seq 0 (N.to_nat n)))).
+Proof. exact count_below_filter. Qed.
+Print Assumptions C06_count_is_cardinality.
+
+(* the pool GetStaker names is the one at the position where the walk stops *)
+Theorem C06_lottery_position : forall l hv,
+  SInv l -> 0 < staked l ->
+  exists k d, nth_error (dlgs l) (lottery_pos l hv) = Some (k, d) /\ get_staker l hv = Ok (d_id d).
+Proof. exact get_staker_pos. Qed.
+Print Assumptions C06_lottery_position.
+
+(* (1) COIN INDICES.  Of the S coin indices 0 .. S-1, the pool at any position of the table is chosen for exactly as
+   many as it holds coins - plus one if it is the first pool of the table (index 0 falls to it, even when it is empty),
+   minus one if it is the last pool holding coins (the index S closing its interval is never produced by mod).
+   The two corrections cancel when the same pool is both. *)
+Theorem C06_lottery_counts_indices : forall l pre post k d,
+  SInv l -> 0 < staked l -> dlgs l = pre ++ (k, d) :: post ->
+  count_below (fun i => Nat.eqb (lottery_pos l i) (length pre)) (staked l) + ind (is_last_funded d post)
+  = tot d + ind (is_first pre).
+Proof. exact lottery_counts_indices. Qed.
+Print Assumptions C06_lottery_counts_indices.
+
+(* ... hence to within one coin unit for every pool *)
+Theorem C06_lottery_counts_within_one : forall l pre post k d,
+  SInv l -> 0 < staked l -> dlgs l = pre ++ (k, d) :: post ->
+  let c := count_below (fun i => Nat.eqb (lottery_pos l i) (length pre)) (staked l) in
+  c <= tot d + 1 /\ tot d <= c + 1.
+Proof. exact lottery_counts_within_one. Qed.
+Print Assumptions C06_lottery_counts_within_one.
+
+(* the same count by identifier (what GetStaker returns), the identifiers of the table being distinct *)
+Theorem C06_lottery_counts_indices_by_id : forall l pre k d post,
+  SInv l -> 0 < staked l -> NoDup (map fst (dlgs l)) -> dlgs l = pre ++ (k, d) :: post ->
+  count_below (elects l (d_id d)) (staked l) + ind (is_last_funded d post) = tot d + ind (is_first pre).
+Proof. exact lottery_counts_indices_by_id. Qed.
+Print Assumptions C06_lottery_counts_indices_by_id.
+
+(* (2) HASH VALUES.  Of the 2^128 lottery values, 2^128 / S or one more are reduced to any given coin index ... *)
+Theorem C06_lottery_values_per_index : forall s i,
+  0 < s -> i < s ->
+  count_below (fun hv => hv mod s =? i) two128 = two128 / s + (if i <? two128 mod s then 1 else 0).
+Proof. exact (fun s i => count_residue s two128 i). Qed.
+Print Assumptions C06_lottery_values_per_index.
+
+(* ... so a pool chosen for c coin indices is chosen for  (2^128 / S) * c + e  lottery values, 0 <= e <= c ... *)
+Theorem C06_lottery_counts_values : forall l (pre : list (N * dlg)),
+  0 < staked l ->
+  let c := count_below (fun i => Nat.eqb (lottery_pos l i) (length pre)) (staked l) in
+  let n := count_below (fun hv => Nat.eqb (lottery_pos l hv) (length pre)) two128 in
+  exists e, n = (two128 / staked l) * c + e /\ e <= c /\ e <= two128 mod staked l.
+Proof. exact (fun l pre Hpos => lottery_counts_values l pre Hpos two128). Qed.
+Print Assumptions C06_lottery_counts_values.
+
+(* ... and its share n / 2^128 of the lottery values is proportional to its share  tot d / S  of the stake to within
+   one coin unit:   (tot d - 1) / S - tot d / 2^128  <=  n / 2^128  <=  (tot d + 1) / S + (tot d + 1) / 2^128
+   (cross-multiplied; the terms over 2^128 are the bias of mod, at most 2^-64). *)
+Theorem C06_lottery_share_of_hash_values : forall l pre post k d,
+  SInv l -> 0 < staked l -> dlgs l = pre ++ (k, d) :: post ->
+  let n := count_below (fun hv => Nat.eqb (lottery_pos l hv) (length pre)) two128 in
+  n * staked l <= (tot d + 1) * two128 + (tot d + 1) * staked l /\
+  tot d * two128 <= (n + tot d) * staked l + two128.
+Proof. exact (fun l pre post k d HI Hpos Eds => lottery_share_of_values l pre post k d HI Hpos Eds two128). Qed.
+Print Assumptions C06_lottery_share_of_hash_values.
+
+Theorem C06_lottery_share_of_hash_values_by_id : forall l pre k d post,
+  SInv l -> 0 < staked l -> NoDup (map fst (dlgs l)) -> dlgs l = pre ++ (k, d) :: post ->
+  let n := count_below (elects l (d_id d)) two128 in
+  n * staked l <= (tot d + 1) * two128 + (tot d + 1) * staked l /\
+  tot d * two128 <= (n + tot d) * staked l + two128.
+Proof. exact (fun l pre k d post => lottery_share_of_values_by_id l pre k d post two128). Qed.
+Print Assumptions C06_lottery_share_of_hash_values_by_id.
 
 (* a delegate with no stake never receives a staker reward *)
 Theorem C06_no_stake_no_reward : forall l bh o l',
